@@ -2,12 +2,14 @@ module verifharness
 
 go 1.25.5
 
-require github.com/andydunstall/piko v0.0.0
+require (
+	github.com/andydunstall/piko v0.0.0
+	github.com/andydunstall/yamux v0.1.6
+)
 
 require (
 	github.com/MicahParks/jwkset v0.11.0 // indirect
 	github.com/MicahParks/keyfunc/v3 v3.8.0 // indirect
-	github.com/andydunstall/yamux v0.1.6 // indirect
 	github.com/beorn7/perks v1.0.1 // indirect
 	github.com/cespare/xxhash/v2 v2.3.0 // indirect
 	github.com/gabriel-vasile/mimetype v1.4.8 // indirect
